@@ -1,12 +1,17 @@
 #!/bin/bash
 # confirm_seed.sh <deliver-dir> : independently confirm a seeded change in a scratch worktree:
 # patch applies, builds, the 192 tests pass, demo fails with the patch and passes without it.
+# The demo is run from the worktree root as deliver/<k>/run.sh, deliver/<k>/demo.sh, or the default gcc line.
 set -u
-D=$(realpath "$1"); W=/tmp/confirm.$$
+D=$(realpath "$1"); K=$(basename $D); W=/tmp/confirm.$$
 git -C /repo worktree add --detach $W HEAD -q || exit 2
 trap 'git -C /repo worktree remove --force $W' EXIT
 cd $W
-demo() { if [ -f $D/demo.sh ]; then (cp $D/demo* . ; bash ./demo.sh) ; else cp $D/demo.c . && gcc -std=gnu99 -w -Iinclude -Iexamples demo.c $(git ls-files 'src/*.c') -o demo_bin -lm -lpthread && ./demo_bin; fi; }
+mkdir -p deliver && cp -r $D deliver/$K
+demo() {
+  if [ -f deliver/$K/run.sh ]; then sh deliver/$K/run.sh
+  elif [ -f deliver/$K/demo.sh ]; then sh deliver/$K/demo.sh
+  else gcc -std=gnu99 -w -Iinclude -Iexamples deliver/$K/demo.c $(git ls-files 'src/*.c') -o deliver/$K/demo_bin -lm -lpthread && ./deliver/$K/demo_bin; fi; }
 demo >/tmp/confirm_clean.$$ 2>&1; clean_rc=$?
 git apply $D/patch.diff || { echo "RESULT patch-does-not-apply"; exit 1; }
 cmake -G Ninja -S . -B _build -DUNIT_TESTING=ON -DCMAKE_BUILD_TYPE=RelWithDebInfo -DCMAKE_C_FLAGS=-Wno-error >/dev/null 2>&1 && cmake --build _build >/tmp/confirm_build.$$ 2>&1; build_rc=$?
